@@ -82,6 +82,30 @@ SUITES["seg3d"] = _seg_suite("seg3d", [1, 2, 2], "D_1x2x2", [2, 1, 3], "S_213", 
 SUITES["seg13n"] = _seg_suite("seg13n", [1, 3], "D_1x3", [1, 1], "S_11", use_scale=False,
                               sample={"quick": 400, "thorough": 4000})
 SUITES["struct4"]["seeds"] = "SeedsStruct4"
+# states CONSTRUCTED from a graph (ids shifted to 0-based, falsy custom edge attribute, custom node feature)
+SUITES["struct3z"] = {
+    "tla": SUITES["struct3"]["tla"],
+    "cfg": {"N": 3, "T": 3, "dims": [], "scale": [], "use_scale": True, "reg_cust": True, "per_axis_pos": False,
+            "name": "struct3z", "rebuild": {"shift": 1, "ecust": True}},
+    "kinds": [1, 2, 3, 4, 5, 6], "depth": {"quick": 4, "thorough": 7}, "maxid": 8,
+    "design_depth": {"quick": 2, "thorough": 4},
+}
+SUITES["seg13z"] = _seg_suite("seg13z", [1, 3], "D_1x3", [1, 1], "S_11", sample={"quick": 400, "thorough": 6000})
+SUITES["seg13z"]["cfg"]["rebuild"] = {"shift": 1, "ecust": True}
+# feature switching
+SUITES["featns"] = {
+    "tla": SUITES["struct3"]["tla"],
+    "cfg": {"N": 3, "T": 3, "dims": [], "scale": [], "use_scale": True, "reg_cust": False, "per_axis_pos": False,
+            "name": "featns"},
+    "kinds": [1, 2, 3, 4, 6, 10], "depth": {"quick": 3, "thorough": 5}, "maxid": 8,
+    "design_depth": {"quick": 2, "thorough": 3}, "sample": {"quick": 500, "thorough": 8000},
+}
+SUITES["feat13"] = _seg_suite("feat13", [1, 3], "D_1x3", [1, 1], "S_11", depth=(2, 3),
+                              sample={"quick": 400, "thorough": 8000})
+SUITES["feat13"]["kinds"] = [2, 3, 4, 6, 9, 10]
+SUITES["feat22"] = _seg_suite("feat22", [2, 2], "D_2x2", [1, 1], "S_11", depth=(2, 2),
+                              sample={"quick": 300, "thorough": 6000})
+SUITES["feat22"]["kinds"] = [2, 3, 4, 6, 9, 10]
 
 import hashlib
 
@@ -132,7 +156,7 @@ def out_dir(kind):
     return os.path.join(d, kind) if d else os.path.join(ROOT, kind)
 
 
-REGS = {"C01": 11, "C03": 13, "C04": 14, "C05": 15, "C06": 16, "C07": 17, "C08": 18, "C09": 19,
+REGS = {"C10": 20, "C01": 11, "C03": 13, "C04": 14, "C05": 15, "C06": 16, "C07": 17, "C08": 18, "C09": 19,
         "C11": 21, "C20": 30}
 
 
